@@ -724,7 +724,7 @@ impl Ctx {
         let chunk = if fam.chunk > 0 {
             fam.chunk
         } else {
-            (fam.size / (self.threads as u64 * 64)).clamp(1, 4096)
+            (fam.size / (self.threads as u64 * 64)).clamp(1, 4096).max(fam.size / (self.threads as u64 * 512))
         };
         let nthreads = self.threads.min(((fam.size + chunk - 1) / chunk).max(1) as usize);
         let stop = AtomicBool::new(false);
@@ -742,7 +742,37 @@ impl Ctx {
                         }
                         let hi = (lo + chunk).min(fam.size);
                         crumb(slot, &fam.name, lo, hi);
-                        for idx in lo..hi {
+                        // fast path: the whole chunk runs under ONE catch_unwind (a per-case net costs ~8 ns,
+                        // which is most of the time of the 10^11-case sweeps); only when a panic escapes a
+                        // case is that case handled by the per-case net, and the chunk resumes behind it
+                        let mut start = lo;
+                        while start < hi {
+                            let r = catch_unwind(AssertUnwindSafe(|| {
+                                for idx in start..hi {
+                                    loc.cur_index = idx;
+                                    let before = loc.viol_count;
+                                    let recorded = loc.violations.len();
+                                    (fam.run)(idx, &mut loc);
+                                    if loc.viol_count > before {
+                                        // leave the fast path: this execution is discarded, the case is
+                                        // executed again under the per-case machinery (and then confirmed)
+                                        loc.viol_count = before;
+                                        loc.violations.truncate(recorded);
+                                        return Some(idx);
+                                    }
+                                }
+                                None
+                            }));
+                            let idx = match r {
+                                Ok(None) => break,
+                                Ok(Some(idx)) => idx,
+                                Err(_) => {
+                                    IN_SUBJECT.with(|f| *f.borrow_mut() = false);
+                                    loc.cur_index
+                                }
+                            };
+                            start = idx + 1;
+                            // slow path for this one case (its first execution above is discarded / died)
                             loc.cur_index = idx;
                             let before = loc.viol_count;
                             let recorded = loc.violations.len();
